@@ -3,6 +3,7 @@
 case kinds
   map   : {"m","n","w" | "s", "wm"?}            -> canonical sparse term list (exact fractions) or "ERR"
   hom   : {"m","n","u","v"}                      -> map(u*v) == map(u) @ map(v); returns items of u*v
+  shom  : {"m","n","s","t"}                      -> map(s*t) == map(s) @ map(t), map(s**2) == map(s)^2, map(s*word)
   adj   : {"m","n","w" | "s"}                    -> map(x.adjoint()) == map(x)^dagger; returns items of adjoint
   shift : {"m","n","w","i","j"}                  -> map(w.shift_operator(i,j)) == map(w)   (normal ordering step)
   lin   : {"m","n","s","t","c"}                  -> map(s+t) == map(s)+map(t), map(c*s) == c*map(s)
@@ -100,6 +101,12 @@ def run(c):
         u, v = fw(c["u"]), fw(c["v"])
         uv = u * v
         return {"items": fitems(uv), "ok": canon(do_map(m, n, uv)) == canon(do_map(m, n, u) @ do_map(m, n, v))}
+    if k == "shom":     # product of sentences (word products that collide must accumulate) and integer powers
+        a, b = fs(c["s"]), fs(c["t"])
+        ok = canon(do_map(m, n, a * b)) == canon(do_map(m, n, a) @ do_map(m, n, b))
+        ok2 = canon(do_map(m, n, a ** 2)) == canon(do_map(m, n, a) @ do_map(m, n, a))
+        ok3 = canon(do_map(m, n, a * fw(c["t"][0][0]))) == canon(do_map(m, n, a) @ do_map(m, n, fw(c["t"][0][0])))
+        return {"ok": bool(ok and ok2 and ok3), "parts": [bool(ok), bool(ok2), bool(ok3)]}
     if k == "adj":
         x = fw(c["w"]) if "w" in c else fs(c["s"])
         xa = x.adjoint()
